@@ -159,7 +159,7 @@ def _flat_text_list(S_):
                z3.ForAll([j], Implies(And(j >= 0, j < S_.new.llen(r)), Val.is_VStr(S_.new.lget(r, j)))))
 
 
-for _fn in ("IN_APP_INCLUDE", "IN_APP_EXCLUDE"):
+for _fn in ("IN_APP_INCLUDE",):
     c = contract(CFG, _fn, ["C19"])
     c.result = VAL
     c.modifies = lambda S_: []
@@ -177,7 +177,7 @@ c.ens("interpreter-prefix-always-excluded", lambda S_: And(
 # ---------------------------------------------------------------- utils.RepeatedTimer / LongPoll.start
 UT = "utils.py"
 PL = "poll/poll.py"
-c = contract(UT, "RepeatedTimer.__init__", ["C19", "C12"])
+c = contract(UT, "RepeatedTimer.__init__", ["C19", "C12"], coarse=True)
 c.param("self", OBJ("RepeatedTimer", inv=False)).param("name", VAL).param("interval", VAL).param("function", VAL)
 c.param("args", VAL).param("kwargs", VAL)
 # the interval is used arithmetically by the timer thread (interval - elapsed % interval)
@@ -188,7 +188,6 @@ c.modifies = lambda S_: [("field", S_.a.self, f) for f in ("name", "interval", "
                                                             "event", "thread")]
 c.ens("keeps-interval-and-function", lambda S_: And(S_.f(S_.a.self, "interval") == S_.a.interval,
                                                     S_.f(S_.a.self, "function") == S_.a.function))
-c.coarse = True
 c.props = []
 
 
@@ -206,12 +205,11 @@ def inv_timer(S_, t):
     return And(S_.pre(h.f(t, "thread"), "Thread"), S_.pre(h.f(t, "event"), "Event"))
 
 
-c = contract(PL, "LongPoll.__initial_poll", [])
+c = contract(PL, "LongPoll.__initial_poll", [], coarse=True)
 c.param("self", OBJ("LongPoll"))
 c.result = NONE
 c.logged = "__initial_poll"
 c.modifies = lambda S_: [("all",)]
-c.coarse = True
 
 c = contract(PL, "LongPoll.start", ["C19", "C14"])
 c.param("self", OBJ("LongPoll"))
